@@ -82,7 +82,10 @@ func sessionDriver(args []string) (*Summary, error) {
 				rec.Digests = append(rec.Digests, res+errs)
 			}
 			for p := 0; p < *procs; p++ {
-				out, err := exec.Command(self, "session-digest", name, kind).Output()
+				// the other processes run in other local time zones: no result may depend on the zone of the process
+				cmd := exec.Command(self, "session-digest", name, kind)
+				cmd.Env = append(os.Environ(), "TZ="+[]string{"America/New_York", "Asia/Kolkata", "UTC", "Pacific/Auckland"}[p%4])
+				out, err := cmd.Output()
 				if err != nil {
 					return nil, fmt.Errorf("digest subprocess: %v", err)
 				}
